@@ -51,22 +51,10 @@ def trace(rec):
     return fills, trades, bal
 
 
-def h_pair(ctx, n=6, tf='3m', kind='T1', side='long', exch='futures', data=(), sym=(4,), move=20):
+def h_pair(ctx, n=6, tf='3m', kind='T1', side='long', exch='futures', data=(), sym=(4,), move=20, gaps=()):
     """normal then fast run of the same symbolic session on one path.  Minutes listed in `sym` are symbolic; the others are
     flat at the previous close."""
-    rows = []
-    prev = 100.0
-    for i in range(n):
-        ts = S.T0 + i * S.MIN
-        if i in sym:
-            c = ctx.real('x%d_c' % i, 50, 200, npf=True)
-            h = ctx.real('x%d_h' % i, 50, 200, npf=True)
-            l = ctx.real('x%d_l' % i, 50, 200, npf=True)
-            ctx.constrain(And(l <= prev, l <= c, prev <= h, c <= h, h - l < move))
-            rows.append([ts, prev, c, h, l, 10.0])
-            prev = c
-        else:
-            rows.append([ts, prev, prev, prev, prev, 10.0])
+    rows = S.sparse_rows(ctx, n, list(sym), move=move, gaps=list(gaps))
     T = _template(ctx, kind, side, exch)
     cfg = S.config_dict(exch, leverage=2, mode='cross', fee=0.001, balance=10000.0)
     droutes = [(S.SYMBOL, t) for t in data]
@@ -119,6 +107,8 @@ def _jobs(tier):
         add(n=6, tf='3m', kind='T1', side='long', sym=[1, 4])
         add(n=6, tf='3m', kind='T1', side='short', sym=[2, 4])
         add(n=6, tf='3m', kind='T3', side='long', sym=[1, 4])
+        add(n=6, tf='3m', kind='T1', side='long', sym=[4], gaps=[4])
+        add(n=6, tf='3m', kind='T1', side='short', sym=[5], gaps=[5])
     else:
         for side in ('long', 'short'):
             add(n=6, tf='3m', kind='T1', side=side, sym=[1, 4])
@@ -127,6 +117,11 @@ def _jobs(tier):
             add(n=6, tf='3m', kind='T3', side=side, sym=[1, 4])
             add(n=10, tf='5m', kind='T1', side=side, sym=[3, 7])
         add(n=6, tf='3m', kind='T1', side='long', exch='spot', sym=[1, 4])
+        for side in ('long', 'short'):
+            add(n=6, tf='3m', kind='T1', side=side, sym=[1, 4], gaps=[4])
+            add(n=6, tf='3m', kind='T1', side=side, sym=[2, 5], gaps=[5])
+            add(n=6, tf='3m', kind='T1', side=side, sym=[3, 4], gaps=[3, 4])
+            add(n=10, tf='5m', kind='T1', side=side, sym=[7], gaps=[7])
         add(n=15, tf='3m', kind='T1', side='long', data=['15m'], sym=[1, 4])
         add(n=6, tf='3m', kind='T1', side='long', sym=[3, 4, 5], move=8)
     return jobs
